@@ -95,9 +95,10 @@ def detached_pair(rng, kind):
 def shared_edge_pair(rng, angle_deg, a=None, b=None, c=None):
     """Two rectangles sharing an edge of length `a` at dihedral angle `angle_deg` (interior angle
     between the two faces; 90 = perpendicular walls of a room), widths b and c, ratios <= 2."""
-    a = float(a or rng.uniform(0.3, 3))
-    b = float(b or a * rng.uniform(0.5, 2))
-    c = float(c or a * rng.uniform(0.5, 2))
+    # all side ratios up to 2 (the envelope of the statement): every side within [a/sqrt2, a*sqrt2]
+    a = float(a or rng.uniform(0.45, 2.1))
+    b = float(b or a * rng.uniform(0.7072, 1.4142))
+    c = float(c or a * rng.uniform(0.7072, 1.4142))
     th = np.deg2rad(angle_deg)
     Pi = np.array([[0, 0, 0], [a, 0, 0], [a, b, 0], [0, b, 0]], dtype=float)      # normal +z
     d = np.array([0, np.cos(th), np.sin(th)])
@@ -110,8 +111,9 @@ def shared_edge_pair(rng, angle_deg, a=None, b=None, c=None):
 
 def shared_vertex_pair(rng, a=None):
     """Two rectangles at a right angle sharing only one vertex (diagonal neighbours across an edge)."""
-    a = float(a or rng.uniform(0.3, 3))
-    b, c, e = a * rng.uniform(0.5, 2), a * rng.uniform(0.5, 2), a * rng.uniform(0.5, 2)
+    # all side ratios up to 2: every side within [a/sqrt2, a*sqrt2]
+    a = float(a or rng.uniform(0.45, 2.1))
+    b, c, e = (a * rng.uniform(0.7072, 1.4142) for _ in range(3))
     Pi = np.array([[0, 0, 0], [a, 0, 0], [a, b, 0], [0, b, 0]], dtype=float)
     Pj = np.array([[a, 0, 0], [a, 0, c], [a + e, 0, c], [a + e, 0, 0]], dtype=float)
     ni = np.array([0, 0, 1.])
